@@ -46,6 +46,23 @@ def flatten(s, out):
     return out
 
 
+def revalue(s, rnd):
+    """same structure and leaf types, other values (floats switch between whole and fractional)"""
+    if isinstance(s, list):
+        return [revalue(x, rnd) for x in s]
+    if isinstance(s, tuple):
+        return tuple(revalue(x, rnd) for x in s)
+    if isinstance(s, dict):
+        return {k: revalue(v, rnd) for k, v in s.items()}
+    if isinstance(s, bool):
+        return not s
+    if isinstance(s, int):
+        return rnd.randint(-20, 20)
+    if isinstance(s, float):
+        return float(rnd.randint(-4, 4)) if s != int(s) else rnd.randint(-64, 64) / 16.0 + 0.0625
+    return s
+
+
 def containers(s, out):
     if isinstance(s, list):
         out.add("list")
@@ -137,7 +154,7 @@ def main():
     R.assumptions = ["bodies use operations that are exact on plain values and on secrets alike (+, -, * int, comparisons)",
                      "bool arguments are public inputs with value 0/1 (whether typed LinComb or LinCombBool is not part of the statement)"]
     return R.finish(require_counters=("public_inputs_compared", "public_outputs_compared", "outputs_forced_unique", "kwargs_refused",
-                                      "plain_results_compared"))
+                                      "plain_results_compared", "raising_wrapped_calls", "value_independence_pairs"))
 
 
 def worker(job):
@@ -161,12 +178,21 @@ def worker(job):
         N(bitlength=16, resolution=res_bits, modulus=p)
         ncalls = rnd.randint(1, 3)
         expected_pub = []
+        specs = []
         ok = True
         desc = []
         mix = set()
         conts = set()
         out_vars = []
         for call in range(ncalls):
+            if rnd.random() < 0.25:
+                def boom(*a):
+                    raise KeyError("body failed")
+                try:
+                    prt.snark(boom)(rnd.randint(0, 9), [1.5, {"k": 2}])
+                except KeyError:
+                    R.count("raising_wrapped_calls")
+                conts.add("after-raising-call")
             args = tuple(gen_struct(rnd) for _ in range(rnd.randint(1, 3)))
             if rnd.random() < 0.3:
                 # aliasing: the same container object reachable twice (f(v, v), [row] * n, a dict value shared with a list slot)
@@ -188,6 +214,7 @@ def worker(job):
             except TypeError:
                 R.count("recipe_not_applicable_on_plain_values")
                 continue
+            specs.append((args, body))
             npub0 = sum(1 for e in recorder.events if e[0] == "pub")
             nev0 = len(recorder.events)
             try:
@@ -247,6 +274,23 @@ def worker(job):
                 ok = False
         # every output wire forced equal to the computed wire: outputs unknown, everything else fixed
         snap = recorder.snapshot()
+        # the constraint system of the same calls must not depend on the argument values (whole vs fractional floats, ...)
+        if ok and specs and case_no % 3 == 0 and not any("aliased" == c for c in conts):
+            from vf import r1cs as _ev
+            tr1 = _ev.canon_trace(snap)
+            N(bitlength=16, resolution=res_bits, modulus=p)
+            try:
+                for args0, body0 in specs:
+                    prt.snark(body0)(*revalue(args0, rnd))
+                tr2 = _ev.canon_trace(recorder.snapshot())
+                R.count("value_independence_pairs")
+                if tr1 != tr2 and "after-raising-call" not in conts:
+                    R.violation("trace-depends-on-argument-values", "the same wrapped calls on other argument values emit a different constraint system (%d vs %d events)" % (
+                        len(tr1), len(tr2)), calls=desc)
+            except Exception:  # noqa - other values may be outside the body's domain
+                R.count("revalued_call_raised")
+            recorder.reset()
+            snap = dict(snap)
         if out_vars and ok:
             fixed = {i: v for i, v in enumerate(snap["values"]) if i not in set(out_vars)}
             res = solve.solve(snap["constraints"], fixed, snap["p"], [{i: 1} for i in out_vars], maxleaves=2000)
